@@ -110,10 +110,14 @@ func (w *c14walk) walk(path string, key string, u, v interface{}, parentHasAttrs
 			k = "" // the skip function does not apply to the sequence decoder
 		}
 		want := w.cfg.refCast(ut, k)
-		ok := jv.Fp(v) == jv.Fp(want)
-		if !ok && !w.seq && key == w.textK && !parentHasAttrs && !w.cfg.SimpleAsMap && w.cfg.SkipFunc {
+		opts := w.cfg.refCastAll(ut, k)
+		if !w.seq && key == w.textK && !parentHasAttrs && !w.cfg.SimpleAsMap && w.cfg.SkipFunc {
 			// unspecified cell: text beside children only
-			ok = jv.Fp(v) == jv.Fp(w.cfg.refCast(ut, parentKey))
+			opts = append(opts, w.cfg.refCastAll(ut, parentKey)...)
+		}
+		ok := false
+		for _, o := range opts {
+			ok = ok || jv.Fp(v) == jv.Fp(o)
 		}
 		if !ok {
 			w.bad = fmt.Sprintf("leaf at %s: text %q cast to %s, expected %s", path, ut, jv.Show(v), jv.Show(want))
